@@ -153,7 +153,7 @@ CHECKS.update({
                      "printer at sampled/all width x indent pairs, reparsed, compared as trees, printed again; in-place mode of the real "
                      "binary on scratch copies; generated programs (nested type instances) and a signature family (binding form x type "
                      "nesting x name length x position); records judged by spec/TraceFmt.tla.",
-                note="The layout algorithm of the pretty crate is not modelled, only its effect (non-blank characters, tree, fixpoint).",
+                note="The layout algorithm of the pretty crate is not modelled, only its effect (tree, fixpoint).",
                 technique="TLA+ generative grammar enumerated by TLC, replayed into the real parser/printer, records validated in TLC"),
     "C18": dict(level="exploration", design="§6 C18",
                 text="All single (thorough: windowed double) token mutations of three base programs are enumerated by TLC from "
